@@ -37,6 +37,8 @@ missing = sorted(want - passed)
 print(f"passed={len(passed)} failed={len(failed)} baseline={len(want)} baseline_not_passing={len(missing)}")
 for m in missing[:40]:
     print("  NOT PASSING:", m)
+for f in sorted(failed)[:40]:
+    print("  failing (not in the baseline):" if f not in want else "  FAILING:", f)
 if not passed:
     print(p.stderr[-3000:])
 sys.exit(1 if missing or not passed else 0)
